@@ -103,6 +103,61 @@ theorem codec_set_reloads :
       ∧ deserialize envW j = .ok (.set [.atom (.int 1), .atom (.int 2)]) :=
   codec_roundtrip envW _ (by decide +kernel)
 
+/-- a key that is not a string anywhere in a mapping: `all(isinstance(key, str) ...)` fails -/
+theorem strKeys_none_of_nonstr : ∀ (d : List (PVal × PVal)), (∃ kv ∈ d, ∀ s, kv.1 ≠ .atom (.str s)) → strKeys d = none
+  | [], h => by obtain ⟨kv, hm, _⟩ := h; simp at hm
+  | (k, v) :: t, h => by
+      obtain ⟨kv, hm, hk⟩ := h
+      rcases List.mem_cons.1 hm with rfl | hm'
+      · cases k with
+        | atom a =>
+          cases a with
+          | str s => exact absurd rfl (hk s)
+          | none => rfl
+          | bool b => rfl
+          | int z => rfl
+          | float r => rfl
+        | _ => rfl
+      · have ih := strKeys_none_of_nonstr t ⟨kv, hm', hk⟩
+        cases k with
+        | atom a =>
+          cases a with
+          | str s => simp [strKeys, ih]
+          | none => rfl
+          | bool b => rfl
+          | int z => rfl
+          | float r => rfl
+        | _ => rfl
+
+/-- **Mixed key types.**  A mapping with ONE key that is not a string — next to any number of string keys, in any
+    position — is never written as a plain JSON object (whose keys JSON text would turn into strings): whatever
+    `serialize_value` writes for it is the typed form `{'type': 'dict', 'keys': [...], 'values': [...]}`.  (The seeded
+    change `any(...)` for `all(...)` in the mapping branch breaks exactly this.)  That it reloads to itself is
+    `codec_roundtrip`, whose hypothesis puts no condition on the key types. -/
+theorem codec_mixed_keys_typed_form (d : List (PVal × PVal)) (h : ∃ kv ∈ d, ∀ s, kv.1 ≠ .atom (.str s))
+    (j : J) (hj : serialize (.dict d) = .ok j) :
+    ∃ kj vj, j = .dict [("type", .str "dict"), ("keys", .list kj), ("values", .list vj)] := by
+  have hs := strKeys_none_of_nonstr d h
+  simp only [serialize, plainKeys, hs] at hj
+  cases hk : serK d with
+  | error e => rw [hk] at hj; cases hj
+  | ok kj =>
+    cases hv : serV d with
+    | error e => rw [hk, hv] at hj; cases hj
+    | ok vj =>
+      rw [hk, hv] at hj
+      cases hj
+      exact ⟨kj, vj, rfl⟩
+
+/-- `{'minority': None, 2: 'ten percent', None: 1, (1, 'x'): True}` inside a Person's properties: typed form, reloads -/
+theorem codec_mixed_keys_reload :
+    let v := PVal.obj "votelib.candidate.Person"
+      [("name", .atom (.str "x")),
+       ("properties", .dict [(.atom (.str "minority"), .atom .none), (.atom (.int 2), .atom (.str "ten percent")),
+                            (.atom .none, .atom (.int 1)), (.tuple [.atom (.int 1), .atom (.str "x")], .atom (.bool true))])]
+    ∃ j, serialize v = .ok j ∧ deserialize envW j = .ok v :=
+  codec_roundtrip envW _ (by decide +kernel)
+
 /-- `Person('x', properties={'type': 'independent'})` -/
 theorem codec_reserved_key_reloads :
     let v := PVal.obj "votelib.candidate.Person"
